@@ -20,7 +20,12 @@ Record eobs := {
    (every entry's sampler answers with a reason naming the entry; sd_type holds the same tag) *)
 Record cobs := { co_dest : dest; co_tag : N }.
 
-Record case := { c_prefix : str; c_rules : rules; c_events : list eobs; c_coll : list cobs }.
+(* route level: a classic-key POST /1/events/<segment> through the real router (mux + handler);
+   rt_seen = the dataset of the span that reached the collector (None: request rejected / nothing arrived) *)
+Record robs14 := { rt_segment : str; rt_seen : option str }.
+
+Record case := { c_prefix : str; c_rules : rules; c_events : list eobs; c_coll : list cobs;
+                 c_route : list robs14 }.
 
 (* field lists are compared as sets *)
 Definition canon_set (l : list str) : list str := compact (ssort l).
@@ -45,8 +50,10 @@ Definition obs_agrees (c : case) (e : eobs) : bool :=
 Definition coll_agrees (c : case) (o : cobs) : bool :=
   N.eqb (co_tag o) (type_of (decide_sampler (c_prefix c) (c_rules c) (co_dest o) [])).
 
+Definition route_ok (o : robs14) : bool := option_eqb str_eqb (rt_seen o) (pct_decode (rt_segment o)).
+
 Definition model_agrees (c : case) : bool :=
-  forallb (obs_agrees c) (c_events c) && forallb (coll_agrees c) (c_coll c).
+  forallb (obs_agrees c) (c_events c) && forallb (coll_agrees c) (c_coll c) && forallb route_ok (c_route c).
 
 (* ---- property monitor (written against the documented shapes, not against the model) ---- *)
 (* documented shapes, checked position by position *)
@@ -100,4 +107,8 @@ Definition per_coll (c : case) (o : cobs) : codes :=
 
 Definition check (c : case) : codes :=
   (if model_agrees c then [] else [code_mismatch]) ++ flat_map (per_event c) (c_events c) ++
-  nodup N.eq_dec (flat_map (per_coll c) (c_coll c)).
+  nodup N.eq_dec (flat_map (per_coll c) (c_coll c)) ++
+  (* 17: the dataset the collector sees for a classic-key request is not the percent-decoding of the
+         URL path segment (so the trace is sampled, and its fields extracted, for another name) *)
+  (if forallb (fun o => match rt_seen o with Some d => option_eqb str_eqb (Some d) (pct_decode (rt_segment o)) | None => true end)
+              (c_route c) then [] else [17%N]).
